@@ -52,8 +52,7 @@ def afterTags (rd : Int → Bytes) (l : Lql) : Option Bytes :=
     else none
   | none, some t, _, _ =>
     if isTags t.source then
-      some (addInt "MINSIZE" (t.minSize.map asInt64) ++ addInt "MAXSIZE" (t.maxSize.map asInt64)
-        ++ (match t.before with | none => [] | some v => addStr "BEFORE" (some (printDate rd v))))
+      some (truncateTail rd t)
     else none
   | none, none, some s, _ =>
     (match s.partitions with
@@ -72,7 +71,7 @@ def classBraceAfterTags (rd : Int → Bytes) (l : Lql) : Bool :=
 /-- F12b: a printed tag set has a key/value that `tagMap.line()` emits in a form `{…}` cannot carry (C08's classes) -/
 def classUnsafeTags (l : Lql) : Bool := (printedTagSets l).any (fun m => !safeTags m)
 
-/-- F12c: TRUNCATE … MAXDBSIZE n (never printed) -/
+/-- F12c (fixed by 846d74c; kept to name a recurrence): TRUNCATE … MAXDBSIZE n -/
 def classMaxDbSize (l : Lql) : Bool := match l.truncate with | some t => t.maxDbSize.isSome | none => false
 
 def printedDates (l : Lql) : List Int :=
@@ -81,7 +80,7 @@ def printedDates (l : Lql) : List Int :=
    | none => [])
   ++ (match l.truncate with | some t => t.before.toList | none => [])
 
-/-- F12d: a RANGE bound / BEFORE instant whose sub-second part is a non-zero multiple of 10 ms: `time.String()` prints
+/-- F12d (fixed by 166caa8; kept to name a recurrence): a RANGE bound / BEFORE instant whose sub-second part is a non-zero multiple of 10 ms: `time.String()` prints
 it with one or two fractional digits, which `parseLqlDateTime` reads back without the fraction -/
 def classDateFraction (l : Lql) : Bool :=
   (printedDates l).any (fun v => v % 1000000000 != 0 && v % 10000000 == 0)
@@ -96,7 +95,7 @@ def classBareKeyword (l : Lql) : Bool :=
                   && s.where_.isNone && s.position.isNone && s.offset.isNone && s.limit.isNone
       | none => false)
 
-/-- F12f: MINSIZE / MAXSIZE ≥ 2^63 (printed through `int64(...)` as a negative number) -/
+/-- F12f (fixed by 0c67e9a; kept to name a recurrence): MINSIZE / MAXSIZE ≥ 2^63 (was printed through `int64(...)` as a negative number) -/
 def classHugeSize (l : Lql) : Bool :=
   match l.truncate with
   | some t => (match t.minSize with | some n => n ≥ 2^63 | none => false) || (match t.maxSize with | some n => n ≥ 2^63 | none => false)
@@ -108,10 +107,14 @@ def classEmptyRange (l : Lql) : Bool :=
   | some s => (match s.range with | some r => r.p1.isNone && r.p2.isNone | none => false)
   | none => false
 
+/-- the classes a failure of this statement may be attributed to. F12c / F12d / F12f are repaired: their predicates
+count only when the regenerated printer facts say the old shape is back (then the check reports "the defect is back") -/
 def classes (rd : Int → Bytes) (l : Lql) : List String :=
   (if classBraceAfterTags rd l then ["F12a"] else []) ++ (if classUnsafeTags l then ["F12b"] else [])
-  ++ (if classMaxDbSize l then ["F12c"] else []) ++ (if classDateFraction l then ["F12d"] else [])
-  ++ (if classBareKeyword l then ["F12e"] else []) ++ (if classHugeSize l then ["F12f"] else [])
+  ++ (if classMaxDbSize l && !Logrange.Generated.C12.truncatePrintsMaxDbSize then ["F12c"] else [])
+  ++ (if classDateFraction l && !Logrange.Generated.C12.dateUsesFormat then ["F12d"] else [])
+  ++ (if classBareKeyword l then ["F12e"] else [])
+  ++ (if classHugeSize l && !Logrange.Generated.C12.truncateSizesUnsigned then ["F12f"] else [])
   ++ (if classEmptyRange l then ["F12g"] else [])
 
 /-- classes of a bare source / filter text (what `cmdCreatePipe` stores): only the `{…}` classes apply -/
